@@ -30,6 +30,8 @@ def run(rep):
     scalechecks.orthogonal(rep, "C17", rep.tier)          # large inputs (size thresholds)
     rep.assumptions += ["orthogonality is formal in the taps: it needs only the premise SUM h[i]h[i+2t] = [t=0], checked per wavelet",
                         "admissible region as stated by the property: every level's input even and >= L"]
+    from .. import scalechecks as _sc
+    _sc.batch_split(rep, "C17", rep.tier, which=("dwt",))      # more than 2^20 elements: every item of the batch is transformed
 
 
 def replay(rep, case):
